@@ -200,6 +200,19 @@ func corrC06(outDir string, seed uint64, tier string, replay string) *report {
 				judge(h, "canonical")
 				rep.sample(map[string]interface{}{"scheme": s.name, "canonical": h})
 				edits1(h, alpha, judge)
+				// the last two digest symbols under the WHOLE alphabet: symbols that differ only in bits the decoder
+				// drops must still be told apart (the digest is compared as text)
+				for _, pos := range []int{len(h) - 1, len(h) - 2} {
+					al := alphaCrypt
+					if s.name == "argon2" {
+						al = b64Std
+					}
+					for k := 0; k < len(al); k++ {
+						if al[k] != h[pos] {
+							judge(h[:pos]+string(al[k])+h[pos+1:], "digest_tail")
+						}
+					}
+				}
 				judge(h+"$", "trailing")
 				judge(h+"$$", "trailing")
 				judge(h+",", "trailing")
